@@ -474,7 +474,7 @@ impl Family for Encoders {
         &["C19"]
     }
     fn rule(&self) -> &'static str {
-        "name-encoding functions (go_ident, encode_ty, go_type_name_for, ref_struct_name, trait_impl_fn_name, inherent_method_fn_name composed with go_ident) over all types up to constructor depth 2 built from {unit,bool,int32,string} and struct/enum names {A, A_B, A__B, B, Tuple2, Ref, int32_x} with {tuple, array, Vec, Ref, fn} constructors, and all identifiers of length <= 3 over {a,_,1,x}; two distinct inputs with the same output are a collision, classified as structural / user-identifiers (ordinary inputs) or hostile-type-names / internal-characters (inputs a user would have to choose adversarially, or that only the compiler writes); distinct = distinct inputs"
+        "name-encoding functions (go_ident, encode_ty, go_type_name_for, ref_struct_name, trait_impl_fn_name, inherent_method_fn_name composed with go_ident) over all tuples of width 2 and 3 and all functions of 1 and 2 parameters over {int32, bool} nested once in themselves (bare, in a Ref, in a pair, in an array), two names that differ in letter case, and over all types up to constructor depth 2 built from {unit,bool,int32,string} and struct/enum names {A, A_B, A__B, B, Tuple2, Ref, int32_x} with {tuple, array, Vec, Ref, fn} constructors, and all identifiers of length <= 3 over {a,_,1,x}; two distinct inputs with the same output are a collision, classified as structural / user-identifiers (ordinary inputs) or hostile-type-names / internal-characters (inputs a user would have to choose adversarially, or that only the compiler writes); distinct = distinct inputs"
     }
     fn cases(&self, _tier: Tier) -> Box<dyn Iterator<Item = Value> + '_> {
         Box::new(vec![json!({"fn": "go_type_name_for"}), json!({"fn": "encode_ty"}), json!({"fn": "ref_struct_name"}), json!({"fn": "go_ident"}), json!({"fn": "method-names"})].into_iter())
@@ -509,6 +509,55 @@ impl Family for Encoders {
         let mut all = base.clone();
         all.extend(d1.clone());
         all.extend(build(&lvl2_inner));
+        // groupings: tuples of width 2 and 3 over {int32, bool} and over those tuples; functions of one or two
+        // parameters over {int32, bool} and over those functions, alone and as tuple components; a pair of
+        // names that differ in letter case only
+        {
+            let s2 = vec![Ty::TInt32, Ty::TBool, Ty::TStruct { name: "Foo".into() }, Ty::TStruct { name: "foo".into() }];
+            let tuples = |inner: &Vec<Ty>| -> Vec<Ty> {
+                let mut out = Vec::new();
+                for a in inner {
+                    for b in inner {
+                        out.push(Ty::TTuple { typs: vec![a.clone(), b.clone()] });
+                        for c in inner {
+                            out.push(Ty::TTuple { typs: vec![a.clone(), b.clone(), c.clone()] });
+                        }
+                    }
+                }
+                out
+            };
+            let funcs = |inner: &Vec<Ty>| -> Vec<Ty> {
+                let mut out = Vec::new();
+                for r in [Ty::TInt32, Ty::TBool] {
+                    for a in inner {
+                        out.push(Ty::TFunc { params: vec![a.clone()], ret_ty: Box::new(r.clone()) });
+                        for b in inner {
+                            out.push(Ty::TFunc { params: vec![a.clone(), b.clone()], ret_ty: Box::new(r.clone()) });
+                        }
+                    }
+                }
+                out
+            };
+            let two = vec![Ty::TInt32, Ty::TBool];
+            let t1 = tuples(&two);
+            let mut t_inner = two.clone();
+            t_inner.extend(t1.iter().cloned());
+            let f1 = funcs(&two);
+            let mut f_inner = two.clone();
+            f_inner.extend(f1.iter().cloned());
+            let mut more: Vec<Ty> = Vec::new();
+            more.extend(tuples(&s2));
+            more.extend(tuples(&t_inner));
+            more.extend(f1.iter().cloned());
+            more.extend(funcs(&f_inner));
+            let wrapped: Vec<Ty> = more.iter().flat_map(|t| vec![Ty::TRef { elem: Box::new(t.clone()) }, Ty::TTuple { typs: vec![t.clone(), Ty::TInt32] }, Ty::TArray { len: 2, elem: Box::new(t.clone()) }]).collect();
+            all.extend(more);
+            all.extend(wrapped);
+            all.push(Ty::TRef { elem: Box::new(Ty::TStruct { name: "Foo".into() }) });
+            all.push(Ty::TRef { elem: Box::new(Ty::TStruct { name: "foo".into() }) });
+            let mut seen_ty = std::collections::HashSet::new();
+            all.retain(|t| seen_ty.insert(format!("{:?}", t)));
+        }
         let mut seen: std::collections::HashMap<String, String> = std::collections::HashMap::new();
         let mut count = 0u64;
         let mut collisions = 0u64;
